@@ -114,6 +114,9 @@ func genParams(t *rapid.T, label string, seq *int) map[string]string {
 				m[k] = "$" + m[k]
 			case 1:
 				m[k] = "pa$$" + m[k] + "${HOME}"
+			case 2:
+				// a parameter may be given the empty string: it is present in the environment all the same
+				m[k] = ""
 			}
 		}
 	}
@@ -442,6 +445,17 @@ func TestProp_StagedRun(t *testing.T) {
 			if s.Inherit && !contains(classes, "parameters-from-default") {
 				classes = append(classes, "parameters-from-default")
 			}
+		}
+		emptyVal := false
+		for k := range c.Stages {
+			for _, v := range c.expectedEnv(k) {
+				if v == "" {
+					emptyVal = true
+				}
+			}
+		}
+		if emptyVal {
+			classes = append(classes, "empty-parameter-value")
 		}
 		if c.sharedKeyDiffers() {
 			classes = append(classes, "shared-key-different-values")
